@@ -6,7 +6,9 @@ package main
 import (
 	"bytes"
 	"fmt"
+	"os"
 	"sort"
+	"strings"
 	"time"
 
 	rl "github.com/SKAARHOJ/rawpanel-lib"
@@ -31,18 +33,18 @@ type tcol struct {
 	idx     int32
 }
 type tstyle struct {
-	fixed            bool
+	fixed             bool
 	pad, spacing, ufs uint32
 }
 type tst struct {
-	iv, iv2        int32
+	iv, iv2         int32
 	fmt, si, mi, pm int32
-	ti, l1, l2     string
-	solid          bool
-	scale          *[5]int32 // type rl rh ll lh
-	style          *tstyle
-	tfont, xfont   *tfont // only meaningful with style != nil
-	pix, bg        *tcol
+	ti, l1, l2      string
+	solid           bool
+	scale           *[5]int32 // type rl rh ll lh
+	style           *tstyle
+	tfont, xfont    *tfont // only meaningful with style != nil
+	pix, bg         *tcol
 }
 
 func (s tst) clone() tst {
@@ -451,6 +453,11 @@ var strPool = []string{
 	"Gr\xc3\xbcn\xc2\xb0", "\xe6\x97\xa5\xe6\x9c\xac", "\xff\xfeA", "a\xc3", "\xc4\x8a" /* U+010A: byte(rune) = 10 */, "A\nB", "\n", "A\rB",
 	"\x01\x7f", "~}|{", "\xf0\x9f\x98\x80!", "\x80", "x\xe2\x82", "A\n\nB\nC",
 }
+var utf8Pool = []string{
+	"Gr\xc3\xb6\xc3\x9fe", "T\xc3\xbcr", "\xc3\x86\xc3\x98\xc3\x85", "\xc3\xa9", "caf\xc3\xa9", "\xc2\xb0C", "5\xe2\x82\xac", "\xe6\x97\xa5\xe6\x9c\xac\xe8\xaa\x9e",
+	"\xf0\x9f\x98\x80!", "a\xf0\x9f\x8e\xa5b", "A\xffB", "x\xe2\x82", "\xc3", "\x80\x81", "\xed\xa0\x80", "\xc0\xaf", "Iris", "MASTER", "Wg", " A ", "",
+	"\xc3\x84\xc3\x96\xc3\x9c\xc3\xa4\xc3\xb6\xc3\xbc", "\xce\xa9 12", "n\xcc\x83",
+}
 var shortPool = []string{"", "A", "Ab", "Cam 1", "MASTER", "gain", "Wg", "iii", "12", "-3.5", "Iris", "PGM", "Gr\xc3\xbcn", "\xff"}
 
 var intPool = []int32{0, 1, -1, 5, 15, 125, 375, 625, -125, 995, 999, 1000, 1005, 12345, -12345, 99999, 1234567, -2147483648, 2147483647, 50, 100, 250, 2147483, 1125, 10, -10}
@@ -755,8 +762,25 @@ func barFamily(r *Rng, s tst, g geo) {
 	runBar(s, g.W, g.H, g.shrink, g.border, vals)
 }
 
+// isSearch: ./check runs the thorough generator a second time as a fallback search when the quick
+// run found a model/implementation disagreement but no failing spec predicate.  That search must stay
+// short, so it gets its own scope: VERIF_SEARCH=1, or stdout redirected to the check's cases.search file.
+func isSearch() bool {
+	if os.Getenv("VERIF_SEARCH") == "1" {
+		return true
+	}
+	if l, err := os.Readlink("/proc/self/fd/1"); err == nil && strings.HasSuffix(l, "cases.search") {
+		return true
+	}
+	return false
+}
+
 func genC18(tier string, rng *Rng) {
 	thorough := tier == "thorough"
+	search := thorough && isSearch()
+	if search {
+		thorough = false // quick-sized scopes, other seed, larger random / centred / malformed streams
+	}
 	bases := baseStates()
 	geos := allGeos()
 
@@ -813,6 +837,9 @@ func genC18(tier string, rng *Rng) {
 	if thorough {
 		nr = 30000
 	}
+	if search {
+		nr = 5000
+	}
 	for i := 0; i < nr; i++ {
 		g := cheapGeo(rng)
 		runTile(randState(rng), g.W, g.H, g.shrink, g.border)
@@ -855,12 +882,46 @@ func genC18(tier string, rng *Rng) {
 		H := []int{16, 24, 31, 32, 48}[rng.Intn(5)]
 		barFamily(rng, s, geo{W, H, rng.Intn(4), rng.Intn(4)})
 	}
+	// (4b) centred formats 10/11 with multi-byte UTF-8 (2-, 3-, 4-byte sequences), invalid and truncated
+	// sequences, on tiles wide enough for the text to fit: the width must be measured in runes
+	nu := 400
+	if thorough {
+		nu = 4000
+	}
+	if search {
+		nu = 1200
+	}
+	for i := 0; i < nu; i++ {
+		var s tst
+		s.fmt = int32(10 + rng.Intn(2))
+		s.ti, s.l1, s.l2 = pickS(rng, utf8Pool), pickS(rng, utf8Pool), pickS(rng, utf8Pool)
+		s.style = &tstyle{ufs: uint32(rng.Intn(4))}
+		if rng.Intn(8) == 0 {
+			s.style.fixed = true
+		}
+		if rng.Intn(8) == 0 {
+			s.style.spacing = uint32(1 + rng.Intn(3))
+		}
+		if rng.Intn(5) != 0 {
+			s.tfont = &tfont{face: int32(rng.Intn(4)), h: uint32(rng.Intn(3)), w: uint32(rng.Intn(3))}
+		}
+		if rng.Intn(3) == 0 {
+			s.pix, s.bg = randCol(rng), randCol(rng)
+		}
+		W := []int{64, 112, 128, 128, 256}[rng.Intn(5)]
+		H := []int{16, 24, 32, 48, 64}[rng.Intn(5)]
+		stat("stream", "utf8-centred")
+		runTile(s, W, H, rng.Intn(4), rng.Intn(4))
+	}
 	// (5) malformed stream: every numeric field anywhere in its Go type's range (padding bounded:
 	// a huge TitleBarPadding is a 2^31-row fill, i.e. a hang by construction, outside the documented 0-3),
 	// strings of random bytes
 	nm := 400
 	if thorough {
 		nm = 5000
+	}
+	if search {
+		nm = 1000
 	}
 	anyI32 := func() int32 {
 		switch rng.Intn(4) {
